@@ -139,6 +139,16 @@ def bisc_contract(item):
     for name, other in variants.items():
         if other != SG:
             return bad(SG, other, f"output for the same set given as {name} differs from the list output", nt)
+    # (6) histories: ONE predicate object asked repeatedly with growing (and then repeated, then smaller) n must answer each
+    # time like the list input with the same (m, n) - whatever bisc remembers about a predicate must not leak
+    pred = lambda perm: perm in members  # noqa: E731 - the same function object for every call below
+    for k in ([n - 1] if n >= 1 else []) + [n, n] + ([n - 1] if n >= 1 else []):
+        mk = min(m, k)
+        want = SG if (mk, k) == (m, n) else _quiet(bisc, list(A), mk, k)
+        got = _quiet(bisc, pred, mk, k)
+        if got != want:
+            return bad(want, got, f"the same predicate object asked again (call with m={mk}, n={k} in the sequence n-1, n, n, n-1) "
+                                  f"answers differently from the list input", nt)
     rev = _quiet(bisc, list(reversed(A)), m, n)
     if _normal(rev) != _normal(SG):
         return bad(sorted(_normal(SG)), sorted(_normal(rev)), "set of learned patterns depends on the order of the input list", nt)
